@@ -226,8 +226,8 @@ class XonshParserGenerator(PythonParserGenerator):
                 self.print("self.call_invalid_rules = False")
                 self.cleanup_statements.append("self.call_invalid_rules = _prev_call_invalid")
 
-            # special case to reduce generated code size
-            if simple := self.callmakervisitor.rhs_helper(node.rhs):
+            # special case to reduce generated code size (not for rules that need their clean-up statement before returning)
+            if not self.cleanup_statements and (simple := self.callmakervisitor.rhs_helper(node.rhs)):
                 _, call = simple
                 self.print(f"return {call}")
                 return
